@@ -89,6 +89,12 @@ func (s *Server) handleConnection(conn net.Conn) {
 		}
 	}
 
+	// the whole reply ("OK"/"NO", a space and the message) has to fit into one message part,
+	// otherwise clients refuse it or it cannot be encoded at all
+	if len(resp.Message) > MaxRequestLength-3 {
+		resp.Message = resp.Message[:MaxRequestLength-3]
+	}
+
 	resp.Encode(conn) //nolint:errcheck
 }
 
